@@ -4,7 +4,10 @@ Space: contact scenes of the shared constraint family (every 3-body tree x joint
 against world plane / sphere / capsule / box, body-body sphere and capsule contacts, in-margin, in-gap (no rows), adhesive
 penetrating / in-margin / in-gap) optionally combined with one other constraint feature (so contact rows do not start at row 0),
 plus dedicated multi-contact scenes (stacks, capsule condim 6, mixed pile) x cone {pyramidal, elliptic} x jacobian {dense,
-sparse} x to_world_frame {False, True} x every contact id of a 3-world batch (ids interleave worlds) + ids out of range.
+sparse} x to_world_frame {False, True} x every contact id of a 3-world batch (ids interleave worlds) + ids out of range
+x capacity slack of the Data buffers: ample (scene default), exact fit (njmax = constraint rows of the fullest world, naconmax =
+contacts of the batch, both measured per scene and configuration from the ample run; legal, nothing overflows, the last contact's
+row block ends exactly at njmax) and exact fit + 1.
 Oracle: mujoco.mj_contactForce on an MjData holding MJWarp's solved forces: (a) the MjData produced by mjw.get_data_into,
 (b) an MjData filled directly with MJWarp's efc_force / contact arrays using MJWarp's own row addresses (independent of
 get_data_into's row re-ordering); world frame = contact.frame^T applied to force and torque.
@@ -19,16 +22,17 @@ from mc.props import c06
 ID = "C39"
 LEVEL = "exploration"
 RULE = (
-  "enumerate contact scenes x cone x jacobian; every contact id of the batch is decoded with to_world_frame False and True; "
+  "enumerate contact scenes x cone x jacobian x buffer capacity {ample, exact fit, exact fit + 1}; every contact id of the batch is decoded with to_world_frame False and True; "
   "non-trivial = at least one decoded contact has a non-zero force with dim>1 or adhesion; distinct = canonical hash of the spec"
 )
 BOUNDS = {
-  "quick": "all 11 contact options x 5 trees x 2 joint patterns; contact option x one other feature (core options) on cycling trees; 5 dedicated multi-contact scenes x 2 variants",
-  "thorough": "same plus contact option x every other single feature option on all trees; dedicated scenes x 4 variants",
+  "quick": "all 11 contact options x 5 trees x 2 joint patterns; contact option x one other feature (core options) on cycling trees; 5 dedicated multi-contact scenes x 2 variants; capacity: ample on every (cone, jacobian), exact fit on both cones (jacobian alternating with cone and scenario), exact fit + 1 on one further configuration of the contact-only and dedicated scenes",
+  "thorough": "same plus contact option x every other single feature option on all trees; dedicated scenes x 4 variants; capacity {ample, exact fit, exact fit + 1} on every (cone, jacobian)",
 }
 ASSUMPTIONS = [
   "class f32 (2e-5*(1+max|ref|)): both sides decode the same float32 efc_force, MuJoCo in float64",
   "oracle (b) fills a MjData (sized by mujoco._functions._realloc_con_efc, as get_data_into does) with MJWarp's arrays; oracle (a) is skipped for a world whose get_data_into result marks an inactive contact as active (reported under its own vkey; that is C31's subject)",
+  "exact-fit capacities are measured from the ample run of the same model and states: njmax = max over worlds of nefc, naconmax = max(nacon, ncollision) (broadphase candidate pairs share the contact capacity); the tight runs are compared against oracles built from their own arrays, and evidence counts how many tight runs reproduced the ample run's nefc/nacon and how many worlds had a contact row block ending exactly at njmax",
   "ids >= nacon must leave the output untouched (kernel returns early); CPU backend; Newton solver",
 ]
 BUDGET = {"quick": 400, "thorough": 2000}
@@ -64,6 +68,9 @@ def scenarios(tier, seed):
   for name in ("sphere_slide", "capsule6", "stack2", "stack3", "pile_mixed"):
     for dv in range(2 if tier == "quick" else 4):
       add(dict(fam="dedicated", name=name, variant=(variant + dv) % 4))
+  if tier != "quick":
+    for scn in out:
+      scn["cap"] = "full"  # every (cone, jacobian) x capacity {exact fit, +1}; quick: covering subset, see _capacity_plan
   return out
 
 
@@ -90,18 +97,119 @@ def _filled_mjdata(mujoco, mjm, d, w, sel, nefc):
   return res
 
 
+def _capacity_plan(scn, cone, jac):
+  """Capacity levels (slack added to the measured exact fit) to re-run for this (cone, jacobian) besides the ample run.
+
+  thorough ("cap": "full"): every (cone, jacobian) x {exact fit, +1}.
+  quick: exact fit for both cones, the jacobian alternating with the cone and a per-scenario parity (so all four
+  (cone, jacobian) get exact-fit runs across neighbouring scenarios); +1 on one further configuration for the scenes whose
+  only feature is the contact and for the dedicated multi-contact scenes.
+  """
+  if scn.get("cap") == "full":
+    return (0, 1)
+  p = int(util.sha(scn)[:8], 16) % 2
+  plan = []
+  if jac == (cone + p) % 2:
+    plan.append(0)
+  if (scn["fam"] != "tree" or len(scn["feats"]) == 1) and cone == p and jac == 1 - p:
+    plan.append(1)
+  return tuple(plan)
+
+
+def _check_config(c, mods, mjm, m, d, tag, ktag):
+  """All contact ids of the batch held by d against both oracles; returns (decoded, loaded, nefc per world, nacon, ncollision)."""
+  mujoco, wp, mjw = mods
+  ndecoded = nloaded = 0
+  nworld = d.nworld
+  nacon = min(int(d.nacon.numpy()[0]), d.naconmax)
+  wid = d.contact.worldid.numpy()[:nacon]
+  adr0 = d.contact.efc_address.numpy()[:nacon, 0] if nacon else np.zeros(0, int)
+  dims = d.contact.dim.numpy()[:nacon]
+  adh = d.contact.adhesion.numpy()[:nacon]
+  nefcs = [min(int(x), d.njmax) for x in d.nefc.numpy()[:nworld]]
+  # reference per contact (contact frame), both oracles
+  want_b = np.zeros((nacon, 6))
+  want_a = np.full((nacon, 6), np.nan)
+  frames = d.contact.frame.numpy()[:nacon].astype(np.float64) if nacon else np.zeros((0, 3, 3))
+  for w in range(nworld):
+    sel = np.nonzero(wid == w)[0]
+    nefc = nefcs[w]
+    resb = _filled_mjdata(mujoco, mjm, d, w, sel, nefc)
+    resa = mujoco.MjData(mjm)
+    mjw.get_data_into(resa, mjm, d, world_id=w)
+    c.true(f"{tag}:w{w}:get_data_into ncon", resa.ncon == len(sel), f"ncon {resa.ncon} vs {len(sel)} contacts of the world", vkey="get_data_into:ncon" + ktag)
+    a_ok = resa.ncon == len(sel)
+    for k, i in enumerate(sel):
+      if a_ok and (resa.contact.efc_address[k] >= 0) != (adr0[i] >= 0):
+        c.fail(
+          "get_data_into:inactive_contact_address" + ktag,
+          f"{tag}:w{w}: contact {int(i)} has efc_address {int(adr0[i])} on device but {int(resa.contact.efc_address[k])} after get_data_into (nefc {resa.nefc})",
+        )
+        a_ok = False
+    for k, i in enumerate(sel):
+      out6 = np.zeros(6)
+      mujoco.mj_contactForce(mjm, resb, k, out6)
+      want_b[i] = out6
+      if a_ok:
+        out6 = np.zeros(6)
+        mujoco.mj_contactForce(mjm, resa, k, out6)
+        want_a[i] = out6
+  # MJWarp: all ids in reverse order (tid != id), then ids beyond nacon
+  if nacon:
+    order = np.arange(nacon - 1, -1, -1, dtype=np.int32)
+    ids = wp.array(order, dtype=int)
+    for twf in (False, True):
+      out = wp.zeros(nacon, dtype=wp.spatial_vector)
+      mjw.contact_force(m, d, ids, twf, out)
+      got = out.numpy().astype(np.float64)
+      for t, i in enumerate(order):
+        for nm, want in (("filled", want_b[i]), ("get_data_into", want_a[i])):
+          if np.any(np.isnan(want)):
+            continue
+          wv = want
+          if twf:
+            wv = np.concatenate([frames[i].T @ want[:3], frames[i].T @ want[3:]])
+          c.close(
+            f"{tag}:{'world' if twf else 'contact'}frame:contact{int(i)}:{nm}",
+            got[t],
+            wv,
+            "f32",
+            scale=1 + float(np.max(np.abs(want_b))),
+            vkey=f"contact_force:{tag.split('[')[0]}:{'world' if twf else 'local'}:{nm}{ktag}",
+          )
+        ndecoded += 1
+        if np.any(want_b[i] != 0) and (int(dims[i]) > 1 or float(adh[i]) != 0.0):
+          nloaded += 1
+  # ids out of range: output untouched
+  sentinel = np.full((2, 6), 7.5, dtype=np.float32)
+  out = wp.array(sentinel, dtype=wp.spatial_vector)
+  mjw.contact_force(m, d, wp.array(np.array([nacon, nacon + 3], dtype=np.int32), dtype=int), False, out)
+  c.equal(f"{tag}:ids beyond nacon leave output untouched", out.numpy(), sentinel, vkey="contact_force:out_of_range_id" + ktag)
+  # a world is "on the boundary" when its rows fill njmax exactly and a contact owns the last row
+  nbound = 0
+  for w in range(nworld):
+    if nefcs[w] == d.njmax and nefcs[w] > 0 and int(d.efc.type.numpy()[w, nefcs[w] - 1]) >= _CONTACT_ROW_TYPE_MIN:
+      nbound += 1
+  return ndecoded, nloaded, nefcs, nacon, int(d.ncollision.numpy()[0]), nbound, int(nacon == d.naconmax and nacon > 0)
+
+
+_CONTACT_ROW_TYPE_MIN = 5  # mjtConstraint: CONTACT_FRICTIONLESS=5, CONTACT_PYRAMIDAL=6, CONTACT_ELLIPTIC=7
+
+
 def execute(scn):
   import mujoco
   import warp as wp
 
   import mujoco_warp as mjw
 
+  mods = (mujoco, wp, mjw)
   mjm, info = c06.build(scn)
   if mjm is None:
     return dict(ok=True, nontrivial=False, outcome="rejected_by_compiler", info=info)
   c = util.Cmp()
-  states = info["states"]
+  states = [util.mj_data(mjm, qpos=qpos, qvel=qvel) for qpos, qvel in info["states"]]
   ndecoded = nloaded = nconfig = 0
+  ncap = ncap_same = nbound = nfullcon = 0
   mjm.opt.solver = 2
   for cone in (0, 1):
     mjm.opt.cone = cone
@@ -112,70 +220,42 @@ def execute(scn):
       if jac:
         kw.setdefault("njmax", 64)
         kw["njmax_nnz"] = int(kw["njmax"]) * mjm.nv
-      d = mjw.make_data(mjm, nworld=3, **kw)
-      for w, (qpos, qvel) in enumerate(states):
-        util.copy_state(util.mj_data(mjm, qpos=qpos, qvel=qvel), d, world=w)
-      mjw.forward(m, d)
-      nconfig += 1
       tag = f"{'elliptic' if cone else 'pyramidal'}:{'sparse' if jac else 'dense'}"
-      nacon = min(int(d.nacon.numpy()[0]), d.naconmax)
-      wid = d.contact.worldid.numpy()[:nacon]
-      adr0 = d.contact.efc_address.numpy()[:nacon, 0] if nacon else np.zeros(0, int)
-      # reference per contact (contact frame), both oracles
-      want_b = np.zeros((nacon, 6))
-      want_a = np.full((nacon, 6), np.nan)
-      frames = d.contact.frame.numpy()[:nacon].astype(np.float64) if nacon else np.zeros((0, 3, 3))
-      for w in range(3):
-        sel = np.nonzero(wid == w)[0]
-        nefc = min(int(d.nefc.numpy()[w]), d.njmax)
-        resb = _filled_mjdata(mujoco, mjm, d, w, sel, nefc)
-        resa = mujoco.MjData(mjm)
-        mjw.get_data_into(resa, mjm, d, world_id=w)
-        c.true(f"{tag}:w{w}:get_data_into ncon", resa.ncon == len(sel), f"ncon {resa.ncon} vs {len(sel)} contacts of the world", vkey="get_data_into:ncon")
-        a_ok = resa.ncon == len(sel)
-        for k, i in enumerate(sel):
-          if a_ok and (resa.contact.efc_address[k] >= 0) != (adr0[i] >= 0):
-            c.fail(
-              "get_data_into:inactive_contact_address",
-              f"{tag}:w{w}: contact {int(i)} has efc_address {int(adr0[i])} on device but {int(resa.contact.efc_address[k])} after get_data_into (nefc {resa.nefc})",
-            )
-            a_ok = False
-        for k, i in enumerate(sel):
-          out6 = np.zeros(6)
-          mujoco.mj_contactForce(mjm, resb, k, out6)
-          want_b[i] = out6
-          if a_ok:
-            out6 = np.zeros(6)
-            mujoco.mj_contactForce(mjm, resa, k, out6)
-            want_a[i] = out6
-      # MJWarp: all ids in reverse order (tid != id), then ids beyond nacon
-      if nacon:
-        order = np.arange(nacon - 1, -1, -1, dtype=np.int32)
-        ids = wp.array(order, dtype=int)
-        for twf in (False, True):
-          out = wp.zeros(nacon, dtype=wp.spatial_vector)
-          mjw.contact_force(m, d, ids, twf, out)
-          got = out.numpy().astype(np.float64)
-          for t, i in enumerate(order):
-            for nm, want in (("filled", want_b[i]), ("get_data_into", want_a[i])):
-              if np.any(np.isnan(want)):
-                continue
-              wv = want
-              if twf:
-                wv = np.concatenate([frames[i].T @ want[:3], frames[i].T @ want[3:]])
-              c.close(f"{tag}:{'world' if twf else 'contact'}frame:contact{int(i)}:{nm}", got[t], wv, "f32", scale=1 + float(np.max(np.abs(want_b))), vkey=f"contact_force:{tag}:{'world' if twf else 'local'}:{nm}")
-            ndecoded += 1
-            dim_i = int(d.contact.dim.numpy()[i])
-            if np.any(want_b[i] != 0) and (dim_i > 1 or float(d.contact.adhesion.numpy()[i]) != 0.0):
-              nloaded += 1
-      # ids out of range: output untouched
-      sentinel = np.full((2, 6), 7.5, dtype=np.float32)
-      out = wp.array(sentinel, dtype=wp.spatial_vector)
-      mjw.contact_force(m, d, wp.array(np.array([nacon, nacon + 3], dtype=np.int32), dtype=int), False, out)
-      c.equal(f"{tag}:ids beyond nacon leave output untouched", out.numpy(), sentinel, vkey="contact_force:out_of_range_id")
+
+      def run(kw, tag, ktag):
+        d = mjw.make_data(mjm, nworld=3, **kw)
+        for w, mjd in enumerate(states):
+          util.copy_state(mjd, d, world=w)
+        mjw.forward(m, d)
+        return _check_config(c, mods, mjm, m, d, tag, ktag)
+
+      nd, nl, nefcs, nacon, ncoll, _, _ = run(kw, tag, "")
+      ndecoded += nd
+      nloaded += nl
+      nconfig += 1
+      # capacity slack: the same batch in buffers that are exactly as large as the ample run shows is needed
+      # (njmax = rows of the fullest world, naconmax = contacts of the batch; legal, nothing overflows), and one slot larger
+      need_j = max(nefcs)
+      need_c = max(nacon, ncoll)  # candidate pairs of the broadphase share the contact capacity
+      for slack in _capacity_plan(scn, cone, jac):
+        kw2 = {k: v for k, v in kw.items() if k not in ("nconmax", "naconmax", "njmax", "njmax_nnz")}
+        kw2["njmax"] = need_j + slack
+        kw2["naconmax"] = need_c + slack
+        if jac:
+          kw2["njmax_nnz"] = kw2["njmax"] * mjm.nv
+        lvl = "exact" if slack == 0 else f"plus{slack}"
+        ctag = f"{tag}[njmax={kw2['njmax']}=nefc+{slack},naconmax={kw2['naconmax']}=need+{slack}]"
+        nd, nl, nefcs2, nacon2, _, nb, nf = run(kw2, ctag, f":capacity_{lvl}")
+        ndecoded += nd
+        nloaded += nl
+        nconfig += 1
+        ncap += 1
+        ncap_same += int(nefcs2 == nefcs and nacon2 == nacon)
+        nbound += nb
+        nfullcon += nf
   return c.result(
     nontrivial=nloaded > 0,
     key=util.sha(scn),
-    info=dict(nv=int(mjm.nv), decoded=ndecoded, loaded=nloaded, configs=nconfig, checked=c.nchecked),
-    counts=dict(extra_evaluations=ndecoded),
+    info=dict(nv=int(mjm.nv), decoded=ndecoded, loaded=nloaded, configs=nconfig, capacity_runs=ncap, capacity_same_counts=ncap_same, boundary_worlds=nbound, checked=c.nchecked),
+    counts=dict(extra_evaluations=ndecoded, capacity_runs=ncap, capacity_runs_same_counts=ncap_same, worlds_with_contact_rows_ending_at_njmax=nbound, capacity_runs_with_nacon_equal_naconmax=nfullcon),
   )
